@@ -157,6 +157,17 @@ func checkBal(c *core.Ctx, srv *run.Server, bc balCase) {
 			c.Violation(sigCmd+"|fails-on-valid-input", fmt.Sprintf("exit %d err %q %s", res.Exit, res.Err, clip(res.Panic, 300)), doc)
 			continue
 		}
+		if c.HR != "" && (len(bc.files["log.yaml"])+len(args))%9 == 0 {
+			// the same report with a terminal as standard output (a pseudo-terminal through script(1))
+			if pres, ok := run.ExecPty(c.HR, args, run.ExecOpts{Dir: srv.Dir}); ok {
+				c.Eval(1)
+				c.Count("runs_with_a_terminal_as_stdout", 1)
+				if pres.Exit != res.Exit || pres.Out != res.Out {
+					c.Violation(sigCmd+"|terminal-changes-the-report", fmt.Sprintf("with a terminal as standard output: exit %d and %d bytes; through a pipe: exit %d and %d bytes", pres.Exit, len(pres.Out), res.Exit, len(res.Out)),
+						caseDoc{Files: bc.files, Args: args, Note: bc.label + "; stdout is a pseudo-terminal (script -qec)", Expected: resDoc(res), Observed: resDoc(pres)})
+				}
+			}
+		}
 		b, err := obs.ParseBal(res.Out)
 		if err != nil {
 			c.Violation(sigCmd+"|unparsable-output", err.Error(), doc)
